@@ -150,6 +150,30 @@ def gen_cg(rng, name, enums, feats):
                     o["weight"] = rng.choice([1, 2, 3, 5])
                 cp["options"] = o
             cps.append(cp)
+        if feats.get("share") and rng.random() < 0.35:
+            # two coverpoints (and all instances) use one shared dict of bin objects
+            owners = [c for c in cps if c.get("bins") and "en" not in
+                      [s_ for s_ in data if s_["n"] == (c["target"].get("var") or c["target"].get("fn"))][0]]
+            if owners:
+                o = rng.choice(owners)
+                o["share"] = o["n"]
+                s_o = [s_ for s_ in data if s_["n"] == (o["target"].get("var") or o["target"].get("fn"))][0]
+                c2 = gen_cp(rng, "cp%d" % len(cps), s_o, enums, dict(feats, fn_target=False),
+                            disjoint_bins=bool(want_cross))
+                import copy as _copy
+                c2["bins"] = _copy.deepcopy(o["bins"])
+                c2["share"] = o["n"]
+                c2["options"] = None
+                ex2 = set()
+                for d_ in (c2.get("ignore") or {}, c2.get("illegal") or {}):
+                    for it_ in d_.values():
+                        ex2 |= set(_vals(it_))
+                allv = set()
+                for sp_ in c2["bins"].values():
+                    allv |= set(_vals(sp_["items"]))
+                if allv <= ex2:
+                    c2["ignore"], c2["illegal"] = None, None
+                cps.append(c2)
         if len(data) < 2 and rng.random() < 0.5:
             # a second coverpoint on the same variable
             cp = gen_cp(rng, "cp%d" % len(cps), data[0], enums, feats, disjoint_bins=bool(want_cross))
